@@ -1,6 +1,7 @@
 import Proofs.StyleImage
 import Proofs.StyleSites
 import Proofs.DrawText
+import Proofs.StyleGuards
 /-!
 C12 — style strings mean what git's colour language says they mean.
 
@@ -267,5 +268,169 @@ example :
     Term.cells Term.init (Draw.textPiece a) =
       "f.rs".toList.map fun c => ⟨c, { fg := some (.idx 3), underline := true }, none⟩ := by
   decide +kernel
+
+/-! ### A style option is painted as given, whatever the other style options are (`src/paint.rs`, `src/style.rs`)
+
+Which configured style a section of a removed / added line is painted with is decided by `paint_minus_and_plus_lines` and
+`update_diff_style_sections`, in places by *comparing configured styles with each other* (`non_emph != emph`, "more than
+one style on the line", the `==` of `edits::annotate` instantiated with `Style`). `Generated.StyleGuards` holds what `==`
+on `Style` compares, where `is_emph` is written, the arguments of the two calls as expression trees over configured
+styles, the guards of the loop, and the inventory of every test on a configured style in src/.
+`StyleGuards.paintedLine cfg …` runs that code on a configuration, `StyleGuards.governs …` runs the same code on the *names*
+of the `Config` fields. `AsParsed cfg`: the `is_emph` flags are as `parse_styles()` leaves them; everything else about
+every style is arbitrary. -/
+
+open StyleGuards in
+/-- **`==` on `Style` is identity**: it compares every field of the struct (the generated list of compared fields
+covers the generated list of fields, which is the one modelled; `DecorationStyle` derives its equality), so two
+styles it calls equal are painted identically — and it tells an emph style from any other style whatever their
+colours and attributes, because `is_emph` is among the compared fields. -/
+theorem style_equality_is_identity :
+    (∀ a b : GStyle, styleEq a b = true ↔ a = b) ∧
+    (∀ a b : GStyle, a.isEmph ≠ b.isEmph → styleEq a b = false) ∧
+    Generated.StyleGuards.styleStructFields = knownParts ∧
+    "is_emph" ∈ Generated.StyleGuards.styleEqFields ∧
+    Generated.StyleGuards.decorationStyleEqDerived = true :=
+  ⟨styleEq_iff, styleEq_false_of_flag, struct_facts.1, isEmph_compared, by decide⟩
+
+/-- Same colours, same attributes, one of them the emph style: not equal. -/
+example : StyleGuards.styleEq ⟨7, true, false, false, false, 0⟩ ⟨7, false, false, false, false, 0⟩ = false := by decide
+
+open StyleGuards in
+/-- **Parsing sets `is_emph` for the emph options only**: in all of src/ every `Style { … }` constructor writes
+`is_emph: false`; the only assignments are the two of `parse_styles()`, `= true`, on the map of *resolved* styles (each
+key owns its copy), for the keys read into `minus_emph_style` / `plus_emph_style` and no other `Config` field; hence
+`configOf given` — `Config::from` over any resolved styles — has exactly those two flags (`AsParsed`). -/
+theorem is_emph_written_only_by_parse_styles :
+    (∀ w ∈ Generated.StyleGuards.isEmphWrites, w.2.2.1 = "init" → w.2.2.2 = "false") ∧
+    (∀ w ∈ Generated.StyleGuards.isEmphWrites, w.2.2.1 = "assign" →
+      w.1 = "src/parse_styles.rs" ∧ w.2.1 = "parse_styles" ∧ w.2.2.2 = "true") ∧
+    (∀ e ∈ Generated.StyleGuards.emphFlagSets, e.2 = "resolved") ∧
+    (∀ f ∈ Generated.StyleGuards.configStyleKey.map (·.1),
+      isEmphField f = (f == "minus_emph_style" || f == "plus_emph_style")) ∧
+    (∀ given, AsParsed (configOf given)) :=
+  ⟨isEmph_writes.1, isEmph_writes.2.1, isEmph_writes.2.2.2.1, isEmph_writes.2.2.2.2.1, configOf_asParsed⟩
+
+open StyleGuards in
+/-- **The guard `non_emph != emph` is always true**: both calls of `update_diff_style_sections` pass
+`if config.X_non_emph_style != config.X_emph_style { Some(config.X_non_emph_style) } else { None }`; for every
+configuration with the flags of `parse_styles()` — whatever colours, attributes and other flags the styles have, equal
+strings included — the comparison is true (the emph style carries `is_emph`, the non-emph style does not, and `==` looks
+at the flag), so the argument is `Some(non-emph style)`: the non-emph style is always applied. -/
+theorem non_emph_guard_always_true (cfg : Cfg) (h : AsParsed cfg) :
+    (∀ c ∈ Generated.StyleGuards.updateCalls, ∀ g, guardOf c.nonEmph = some g → evalGuard cfg g = true) ∧
+    (∀ c ∈ Generated.StyleGuards.updateCalls, (guardOf c.nonEmph).isSome = true) ∧
+    (∀ c, callOf .minus = some c → evalOpt cfg c.nonEmph = some (cfg "minus_non_emph_style")) ∧
+    (∀ c, callOf .plus = some c → evalOpt cfg c.nonEmph = some (cfg "plus_non_emph_style")) := by
+  have hsym : ∀ c ∈ Generated.StyleGuards.updateCalls,
+      (guardOf c.nonEmph).all (fun g => symGuard g == some true) = true := by decide
+  refine ⟨?_, by decide, ?_, ?_⟩
+  · intro c hc g hg
+    have := hsym c hc
+    rw [hg] at this
+    exact symGuard_sound cfg h g true (by simpa using this)
+  · intro c hc
+    obtain ⟨hm, hs⟩ := callOf_mem .minus c hc
+    rw [symOpt_sound cfg h _ _ ((calls_args c hm).1 hs).2]; rfl
+  · intro c hc
+    obtain ⟨hm, hs⟩ := callOf_mem .plus c hc
+    rw [symOpt_sound cfg h _ _ ((calls_args c hm).2 hs).2]; rfl
+
+open StyleGuards in
+/-- The user gives the same style to `minus-emph-style` and `minus-non-emph-style` (and another to `minus-style`): the
+guard still holds, the unchanged sections of a paired removed line get the non-emph style, the changed one the emph
+style, an unpaired line `minus-style`. -/
+example :
+    let given : String → GStyle := fun k =>
+      if k == "minus-style" then ⟨1, false, false, false, false, 0⟩ else ⟨52, false, false, false, false, 0⟩
+    paintedLine (configOf given) .minus true [(false, false), (true, false), (false, false)] =
+      .ok [(⟨52, false, false, false, false, 0⟩, false), (⟨52, true, false, false, false, 0⟩, false),
+           (⟨52, false, false, false, false, 0⟩, false)] ∧
+    paintedLine (configOf given) .minus false [(false, false)] = .ok [(⟨1, false, false, false, false, 0⟩, false)] := by
+  decide
+
+open StyleGuards in
+/-- **A style option is painted as given, whatever the other style options are** (hunk lines): for every configuration
+with the flags of `parse_styles()`, every side, paired or not, every annotation of the line: `governs` — computed without
+looking at any configured style — names for every section the `Config` field that governs it, and the section is painted
+with exactly the configured style of that field. So the style a section shows depends on the value of one option only
+(two configurations that agree on it paint the section alike), and the closed form of `governs` is the documented one:
+on a removed line, and outside the trailing whitespace of an added line, a changed section shows `X-emph-style`, an
+unchanged section of a paired line `X-non-emph-style`, an unchanged section of an unpaired line `X-style`. -/
+theorem style_option_painted_as_given_whatever_the_others (cfg : Cfg) (h : AsParsed cfg) (side : Side)
+    (homolog : Bool) (secs : List (Bool × Bool)) :
+    ∃ g, governs side homolog secs = .ok g ∧
+      paintedLine cfg side homolog secs = .ok (g.map fun p => (cfg p.1, p.2)) ∧
+      (∀ cfg', AsParsed cfg' → ∃ out', paintedLine cfg' side homolog secs = .ok out' ∧
+        ∀ i (hi : i < g.length) (hi' : i < out'.length), cfg' g[i].1 = cfg g[i].1 → out'[i].1 = cfg g[i].1) ∧
+      (∀ pre s post, secs = pre ++ s :: post → (side = .minus ∨ ∃ t ∈ s :: post, t.2 = false) →
+        ∃ gpre gpost, g = gpre ++ (hunkRule side homolog s.1, s.2) :: gpost ∧ gpre.length = pre.length) := by
+  obtain ⟨g, hg⟩ := governs_ok side homolog secs
+  refine ⟨g, hg, ?_, ?_, ?_⟩
+  · rw [paintedLine_eq_governs cfg h, hg]; rfl
+  · intro cfg' h'
+    refine ⟨g.map fun p => (cfg' p.1, p.2), by rw [paintedLine_eq_governs cfg' h', hg]; rfl, ?_⟩
+    intro i hi hi' he
+    simpa using he
+  · intro pre s post hs hb
+    subst hs
+    obtain ⟨gpre, gpost, h1, h2, _⟩ := governs_section side homolog pre post s g hg hb
+    exact ⟨gpre, gpost, h1, h2⟩
+
+open StyleGuards in
+/-- An added paired line `unchanged · changed · unchanged · trailing blank`: the trailing blank section is the
+whitespace-error style's, the rest follows `hunkRule`; unpaired: the style of the line. -/
+example :
+    governs .plus true [(false, false), (true, false), (false, false), (false, true)] =
+      .ok [("plus_non_emph_style", false), ("plus_emph_style", false), ("plus_non_emph_style", false),
+           ("whitespace_error_style", true)] ∧
+    governs .plus false [(false, false), (false, true)] = .ok [("plus_style", false), ("whitespace_error_style", true)] ∧
+    governs .minus true [(false, false), (true, false), (false, true)] =
+      .ok [("minus_non_emph_style", false), ("minus_emph_style", false), ("minus_non_emph_style", true)] := by
+  decide
+
+open StyleGuards in
+/-- **The `==` of `edits::annotate` on styles is a comparison of roles**: `get_diff_style_sections` instantiates the
+annotation type with `Style` (`noop_deletion` = `minus-style`, `deletion` = `minus-emph-style`, likewise plus); every
+comparison in `annotate` is `<side>_op_prev == <parameter of the same side>`, and for every value the variable can hold
+and every configuration with the flags of `parse_styles()` the two styles are equal exactly when they are the same
+parameter — whatever the user's style strings (equal ones included). -/
+theorem annotation_comparisons_are_structural (cfg : Cfg) (h : AsParsed cfg) :
+    ∀ c ∈ Generated.StyleGuards.annotateComparisons, c.2.1 = "==" ∧
+      ∀ v ∈ prevValues c.1, ∃ fv fr, annotationField v = some fv ∧ annotationField c.2.2 = some fr ∧
+        styleEq (cfg fv) (cfg fr) = (v == c.2.2) := by
+  intro c hc
+  obtain ⟨h1, _, h3⟩ := annotate_facts c hc
+  refine ⟨h1, ?_⟩
+  intro v hv
+  have := h3 v hv
+  cases hfv : annotationField v with
+  | none => simp [hfv] at this
+  | some fv =>
+    cases hfr : annotationField c.2.2 with
+    | none => simp [hfv, hfr] at this
+    | some fr =>
+      simp only [hfv, hfr, Option.bind_some] at this
+      exact ⟨fv, fr, rfl, rfl, symCmp_sound cfg h (.style fv) (.style fr) _ this⟩
+
+example : ("minus_op_prev", "==", "deletion") ∈ Generated.StyleGuards.annotateComparisons ∧
+    StyleGuards.prevValues "minus_op_prev" = ["noop_deletion", "deletion", "noop_deletion"] := by decide
+
+open StyleGuards in
+/-- **Every test on a configured style in src/ is one of those modelled or reviewed** (generated inventory): two whole
+`Style` values are compared in five functions only (`reviewedComparisonPlaces`: the guards and `annotate` above,
+`style_sections_contain_more_than_one_style`, the coalescing of `superimpose_style_sections`, and
+`blame_metadata_style` on a style parsed from git's colours); a configured style is an operand of `==` / `!=` only in
+`paint_minus_and_plus_lines`, and only the operands of the modelled guards; the parts of configured styles that are read
+are exactly `reviewedPartsRead` (each in the code that writes that option's own element, or deciding whether syntect
+runs); `is_emph` of a configured style is never read. -/
+theorem configured_style_tests_are_modelled :
+    Generated.StyleGuards.styleComparisonPlaces = reviewedComparisonPlaces ∧
+    Generated.StyleGuards.configStylePartsRead = reviewedPartsRead ∧
+    (∀ r ∈ Generated.StyleGuards.configStyleReads, r.use = "cmp" →
+      r.file = "src/paint.rs" ∧ r.inFn = "paint_minus_and_plus_lines" ∧
+      r.field ∈ Generated.StyleGuards.updateCalls.flatMap fun c => optOperands c.wsErr ++ optOperands c.nonEmph) ∧
+    (∀ r ∈ Generated.StyleGuards.configStyleReads, r.use = "part" → r.detail ≠ "is_emph") :=
+  inventory_facts
 
 end C12
